@@ -1,5 +1,6 @@
 """Stream-protocol rules shared by C01 and C10 (DESIGN.md section 5):
 R1 no exhaustion latch, R5/T1 accumulator reset, T2 work-list guard."""
+import os
 from zw import (walk, walk_nolambda, unwrap, short, is_null_stack_expr, Broken,
                 field_chain)
 from inline import Inliner
@@ -727,7 +728,7 @@ def r7(prog):
         pulls = [n for n in g.nodes if node_has_pull(prog, cls, n)]
         if not pulls:
             continue
-        key = "R7:" + f["fid"].split("(")[0]
+        key = "R7:" + f["q"]
         modelled = 0
         bad = None
         for p in pulls:
@@ -917,4 +918,149 @@ def t4(prog, tier="quick"):
     inst.append((key, {"next_calls": n_eval}))
     if bad:
         findings.append({"key": key, "where": "libzwerg/" + nxt["l"], "msg": bad, "detail": None})
+    return inst, findings
+
+
+# --------------------------------------------------------------------------
+# R8: state that outlives the call is not left moved-from
+
+def _split_params(fid):
+    """parameter type list from 'name(T1,T2,...)const'"""
+    i = fid.find("(")
+    # find the matching parenthesis of the LAST top-level parameter list
+    depth = 0
+    start = None
+    for j, ch in enumerate(fid):
+        if ch == "(" and depth == 0 and fid[j - 8:j] != "operator":
+            start = j
+        if ch in "(<[":
+            depth += 1
+        elif ch in ")>]":
+            depth -= 1
+            if depth == 0 and ch == ")" and start is not None:
+                end = j
+    if start is None:
+        return []
+    inner = fid[start + 1:end]
+    out, depth, cur = [], 0, ""
+    for ch in inner:
+        if ch in "(<[":
+            depth += 1
+        elif ch in ")>]":
+            depth -= 1
+        if ch == "," and depth == 0:
+            out.append(cur.strip())
+            cur = ""
+        else:
+            cur += ch
+    if cur.strip():
+        out.append(cur.strip())
+    return out
+
+
+def r8(prog):
+    """A value kept in the per-execution state area (reached through a reference obtained from scon::get) is read again by the next
+    call of next().  If a function hands such a value to a parameter that may steal it (std::move into `T&&` or a by-value parameter) then on every path to the
+    function's exit the field - or an object containing it - must be assigned, emplaced or reset again.  Smart pointers are exempt: their
+    moved-from state is the defined `none` that the op's own state machine tests (R1/R7 decide that)."""
+    from cfg import CFG
+    inst, findings = [], []
+    nscan = 0
+    for f in sorted(prog.funcs.values(), key=lambda f: f["fid"]):
+        body = f.get("body")
+        if not body or "test" in os.path.basename(f.get("file", "")):
+            continue
+        stvars = {}
+        for x in walk(body):
+            if x.get("k") == "decl":
+                for v in x["vars"]:
+                    if v.get("t", "").endswith("&") and isinstance(v.get("init"), dict) and \
+                       any(y.get("k") == "call" and (y.get("f") or "").startswith("scon::get<") for y in walk(v["init"])):
+                        stvars[v["id"]] = v["n"]
+        if not stvars:
+            continue
+        nscan += 1
+
+        def rooted(e):
+            fc = field_chain(e)
+            if fc and fc[0].startswith("local:") and fc[0].split(":")[1].isdigit() and int(fc[0].split(":")[1]) in stvars and fc[1]:
+                return int(fc[0].split(":")[1]), fc[1]
+            return None
+
+        def stealing_moves(ast):
+            out = []
+            for x in walk_nolambda(ast):
+                if x.get("k") in ("call", "ctor"):
+                    ptypes = _split_params(x.get("fid") or "")
+                    args = list(x.get("a") or [])
+                    off = 0
+                    if x.get("k") == "call" and x.get("op") and x.get("ismethod") and len(ptypes) == len(args) - 1:
+                        off = 1
+                    for i, a in enumerate(args):
+                        m = a
+                        while isinstance(m, dict) and m.get("k") in ("cast", "paren", "mte") and isinstance(m.get("e"), dict):
+                            m = m["e"]
+                        if not (isinstance(m, dict) and m.get("k") == "call" and (m.get("f") or "").startswith("std::move<")):
+                            continue
+                        r = rooted(m["a"][0])
+                        if r is None:
+                            continue
+                        t = (m["a"][0].get("t") or "")
+                        if t.startswith(("std::unique_ptr<", "std::shared_ptr<")):
+                            continue
+                        pt = ptypes[i - off] if 0 <= i - off < len(ptypes) else "?"
+                        if pt.endswith("&&") or (pt != "?" and not pt.endswith("&")) or pt == "?":
+                            out.append((r, m, pt, x))
+            return out
+
+        def redefines(ast, root, chain):
+            for x in walk_nolambda(ast):
+                tgt = None
+                if x.get("k") == "asg":
+                    tgt = x.get("lhs")
+                elif x.get("k") == "call" and x.get("op") == "=" and x.get("a"):
+                    tgt = x["a"][0]
+                elif x.get("k") == "call" and x.get("fn") in ("emplace", "reset", "clear", "assign", "swap", "operator=") and x.get("obj") is not None:
+                    tgt = x["obj"]
+                if tgt is None:
+                    continue
+                r = rooted(tgt)
+                if r and r[0] == root and r[1] == chain[:len(r[1])]:
+                    return True
+            return False
+        g = None
+        for x in [body]:
+            if not stealing_moves(x):
+                break
+        else:
+            g = CFG(f)
+        if g is None:
+            continue
+        for n in g.nodes:
+            if not isinstance(n.ast, dict):
+                continue
+            for (root, chain), m, pt, callee in stealing_moves(n.ast):
+                key = "R8:%s:%s" % (f["q"], ".".join(chain))
+                inst.append((key, {"param": pt}))
+                if redefines(n.ast, root, chain) and not n.kind == "ret":
+                    continue
+                seen, work, leak = set(), [t for t, _ in n.succs], False
+                while work:
+                    t = work.pop()
+                    if t in seen:
+                        continue
+                    seen.add(t)
+                    tn = g.nodes[t]
+                    if t == g.exit.id:
+                        leak = True
+                        break
+                    if isinstance(tn.ast, dict) and redefines(tn.ast, root, chain):
+                        continue
+                    work.extend(s for s, _ in tn.succs)
+                if leak:
+                    findings.append({"key": key, "where": "libzwerg/" + str(m.get("l") or n.loc),
+                                     "msg": "%s hands `%s.%s` (kept in the execution's state area, read again by the next call) to a parameter `%s` of %s that may steal "
+                                            "its contents, and returns without assigning it again: the next result for the same input is computed from a moved-from value"
+                                            % (f["q"], stvars[root], ".".join(chain), pt, (callee.get("f") or callee.get("c") or "?")[:60]), "detail": None})
+    inst.append(("R8:functions-with-state-references", {"scanned": nscan}))
     return inst, findings
